@@ -50,6 +50,7 @@ def run(ck, F, E):
     latch(ck, F, E)
     transient(ck, F, E)
     mappings(ck, F)
+    line_forwarding(ck, F)
     error_arms(ck, F)
     page_side(ck)
 
@@ -200,6 +201,36 @@ def mappings(ck, F):
         ok = len(cs) == 1 and all(strip_expr(b.expr(a)) == ("param", i) or i == 0 for i, a in enumerate(cs[0].args))
         ck.require(ok, "C19:FORWARD:%s" % fn, "faithful mapping", "%s forwards its arguments unchanged" % fn,
                    "JsInterpreter::%s no longer forwards to the core unchanged" % fn, b.span)
+
+
+def line_forwarding(ck, F):
+    """start_evaluating hands the core exactly the submitted line, and shows the caret against that same line."""
+    from lib import expr_calls, expr_params
+    b = F.one("JsInterpreter::start_evaluating", "abasic_web")
+    if b is None:
+        ck.missing("C19:FORWARD:start_evaluating", "JsInterpreter::start_evaluating")
+        return
+    cs = b.calls_to("Interpreter::start_evaluating")
+    ok = len(cs) == 1
+    why = "%d calls of the core's start_evaluating" % len(cs)
+    if ok:
+        e = b.expr(cs[0].args[1])
+        foreign = [x[1].split("::")[-1] for x in expr_calls(e) if x[1].split("::")[-1] not in ("as_ref", "deref", "as_str", "borrow")]
+        ok = not foreign and expr_params(e) == {1}
+        why = "line argument is derived through %s from parameters %s" % (foreign, sorted(expr_params(e)))
+    ck.require(ok, "C19:FORWARD:start_evaluating", "faithful mapping", "the submitted line reaches the core unchanged",
+               "JsInterpreter::start_evaluating does not pass the submitted line to the core as given (%s): lines whose "
+               "exact text matters (REM / string / DATA text, trailing characters the core rejects) behave differently "
+               "from the core" % why, b.span)
+    gl = [c for c in b.calls() if c.callee.endswith("get_line_with_pointer_caret")]
+    ok2 = bool(gl)
+    for c in gl:
+        e = b.expr(c.args[2])
+        foreign = [x[1].split("::")[-1] for x in expr_calls(e) if x[1].split("::")[-1] not in ("as_ref", "deref", "as_str", "borrow", "clone")]
+        if foreign or expr_params(e) != {1}:
+            ok2 = False
+    ck.require(ok2, "C19:FORWARD:caret-line", "faithful mapping", "the caret lines are computed against the submitted line",
+               "the source line handed to get_line_with_pointer_caret is not the submitted line", b.span)
 
 
 def error_arms(ck, F):
